@@ -30,6 +30,7 @@ type ccfg struct {
 	Nest    int // 0: handlers return; 1: handler of request 1 issues a Get; 2: the nested exchange's... second request also nests
 	Preempt int
 	NestOp  string // "" = Get | "ping": the blocking call issued from inside the handler
+	OwnMID  bool   // udp: the peer's confirmable request 1 carries the message ID this endpoint uses next for its own messages, and the nested request is confirmable
 	Drop    int    // >0: the connection's request monitor drops request number Drop (it must not stop the ones behind it)
 }
 
@@ -40,6 +41,9 @@ func (c ccfg) String() string {
 	}
 	if c.Drop > 0 {
 		x += fmt.Sprintf(" request-monitor-drops=req%d", c.Drop)
+	}
+	if c.OwnMID {
+		x += " peer-request-carries-our-next-message-id nested-confirmable"
 	}
 	return fmt.Sprintf("%s-conn burst of %d requests queue=%d nesting=%d preempt<=%d%s", c.T, c.N, c.Q, c.Nest, c.Preempt, x)
 }
@@ -71,6 +75,7 @@ func connScenario(c ccfg) *mcx.Scenario {
 				}
 				var inject func(m message.Message)
 				injectRaw := func(message.Message) {}
+				ackFor := func(_ message.Message, resp message.Message) message.Message { return resp }
 				var injectBurst func(ms []message.Message)
 				var outs func() []message.Message
 				dropPath := fmt.Sprintf("/req%d", c.Drop)
@@ -85,11 +90,29 @@ func connScenario(c ccfg) *mcx.Scenario {
 						if c.NestOp == "ping" {
 							return w.CC.Ping(context.Background())
 						}
-						req := w.Request(context.Background(), codes.GET, path, message.Token{0xF0, tok}, message.NonConfirmable, nil)
+						typ := message.NonConfirmable
+						if c.OwnMID {
+							typ = message.Confirmable
+						}
+						req := w.Request(context.Background(), codes.GET, path, message.Token{0xF0, tok}, typ, nil)
 						_, err := w.CC.Do(req)
 						return err
 					}
-					inject = func(m message.Message) { m.Type, m.MessageID = message.NonConfirmable, w.PeerMID(); _ = w.Inject(m) }
+					injected := 0
+					inject = func(m message.Message) {
+						injected++
+						m.Type, m.MessageID = message.NonConfirmable, w.PeerMID()
+						if c.OwnMID && injected == 1 {
+							m.Type, m.MessageID = message.Confirmable, 1000 // udpw: the connection's own message IDs start at 1000
+						}
+						_ = w.Inject(m)
+					}
+					ackFor = func(req message.Message, resp message.Message) message.Message {
+						if req.Type == message.Confirmable {
+							resp.Type, resp.MessageID = message.Acknowledgement, req.MessageID
+						}
+						return resp
+					}
 					injectRaw = func(m message.Message) { _ = w.Inject(m) }
 					outs = func() []message.Message {
 						var ms []message.Message
@@ -145,7 +168,12 @@ func connScenario(c ccfg) *mcx.Scenario {
 					acted := false
 					for _, m := range outs() {
 						if m.Code == codes.GET {
-							inject(message.Message{Code: codes.Content, Token: m.Token, Payload: []byte("nested-answer")})
+							resp := ackFor(m, message.Message{Code: codes.Content, Token: m.Token, Payload: []byte("nested-answer")})
+							if resp.Type == message.Acknowledgement {
+								injectRaw(resp) // piggybacked: message ID of the nested request
+							} else {
+								inject(resp)
+							}
 							acted = true
 						}
 						if m.Code == codes.Ping {
@@ -197,6 +225,9 @@ func connScenario(c ccfg) *mcx.Scenario {
 func runConn(r *ev.Run, scs *[]*mcx.Scenario) {
 	for _, t := range []string{"udp", "tcp"} {
 		for _, q := range []int{0, 1, 16} {
+			*scs = append(*scs, obsNestScenario(t, q, ev.Pick(r, 1, 2)))
+		}
+		for _, q := range []int{0, 1, 16} {
 			*scs = append(*scs, connScenario(ccfg{T: t, Q: q, N: 4, Nest: 0, Preempt: ev.Pick(r, 1, 2)}))
 			*scs = append(*scs, connScenario(ccfg{T: t, Q: q, N: 3, Nest: 1, Preempt: ev.Pick(r, 1, 2)}))
 		}
@@ -205,8 +236,143 @@ func runConn(r *ev.Run, scs *[]*mcx.Scenario) {
 			*scs = append(*scs, connScenario(ccfg{T: t, Q: q, N: 3, Nest: 1, NestOp: "ping", Preempt: ev.Pick(r, 1, 2)}))
 		}
 		*scs = append(*scs, connScenario(ccfg{T: t, Q: 1, N: 3, Nest: 2, NestOp: "ping", Preempt: ev.Pick(r, 0, 1)}))
+		if t == "udp" {
+			for _, q := range []int{0, 1, 16} {
+				*scs = append(*scs, connScenario(ccfg{T: t, Q: q, N: 3, Nest: 1, OwnMID: true, Preempt: ev.Pick(r, 0, 1)}))
+			}
+		}
 		for _, d := range []int{1, 2, 4} {
 			*scs = append(*scs, connScenario(ccfg{T: t, Q: 16, N: 4, Nest: 0, Drop: d, Preempt: ev.Pick(r, 0, 1)}))
 		}
+	}
+}
+
+// An observation callback that issues a blocking request while a further notification of the same
+// observation - and then the awaited response - arrive behind it.
+func obsNestScenario(t string, q int, preempt int) *mcx.Scenario {
+	name := fmt.Sprintf("%s-conn observation callback issues a blocking Get; a second notification and then the response arrive behind it; queue=%d preempt<=%d", t, q, preempt)
+	return &mcx.Scenario{
+		Name:   name,
+		Bounds: mcx.Bounds{Preempt: preempt, Env: -1, Select: -1},
+		Body: func(s *vrt.Sched) func() (string, []mcx.Finding) {
+			var fs []mcx.Finding
+			var seen []string
+			nestedErr := "not-run"
+			vrt.App("peer", func() {
+				var observe func(cb func(*pool.Message)) error
+				var doGet func() error
+				var inject func(m message.Message)
+				var outs func() []message.Message
+				if t == "udp" {
+					w := udpw.New(udpw.Opts{NStart: 4, MaxRetransmit: 1, LimitTotal: 8, LimitEndpoint: 8, QueueSize: q})
+					observe = func(cb func(*pool.Message)) error {
+						_, err := w.CC.Observe(context.Background(), "/obs", cb)
+						return err
+					}
+					doGet = func() error {
+						_, err := w.CC.Do(w.Request(context.Background(), codes.GET, "/slow", message.Token{0xF1}, message.NonConfirmable, nil))
+						return err
+					}
+					inject = func(m message.Message) {
+						if m.Type != message.Acknowledgement {
+							m.Type, m.MessageID = message.NonConfirmable, w.PeerMID()
+						}
+						_ = w.Inject(m)
+					}
+					outs = func() []message.Message {
+						var ms []message.Message
+						for _, o := range w.NewOuts() {
+							ms = append(ms, o.M)
+						}
+						return ms
+					}
+				} else {
+					w := tcpw.New(tcpw.Opts{LimitTotal: 8, LimitEndpoint: 8, QueueSize: q, DisableCSM: true})
+					observe = func(cb func(*pool.Message)) error {
+						_, err := w.CC.Observe(context.Background(), "/obs", cb)
+						return err
+					}
+					doGet = func() error {
+						r := w.CC.AcquireMessage(context.Background())
+						_ = r.SetupGet("/slow", message.Token{0xF1})
+						_, err := w.CC.Do(r)
+						return err
+					}
+					inject = func(m message.Message) { m.Type, m.MessageID = 0, 0; w.Inject(m) }
+					outs = w.NewOuts
+				}
+				obsOpt := func(v uint32) message.Options {
+					b := make([]byte, 4)
+					o, _, _ := message.Options{}.SetUint32(b, message.Observe, v)
+					return o
+				}
+				var obsTok message.Token
+				registered := false
+				vrt.App("observer", func() {
+					err := observe(func(n *pool.Message) {
+						b, _ := n.ReadBody()
+						seen = append(seen, string(b))
+						if string(b) == "n1" {
+							if e := doGet(); e != nil {
+								nestedErr = e.Error()
+							} else {
+								nestedErr = "ok"
+							}
+						}
+					})
+					if err != nil {
+						fs = append(fs, mcx.Finding{Sig: "ENGINE/setup", What: name + ": registration failed: " + err.Error()})
+					}
+					registered = true
+				})
+				slowSeen := false
+				for round := 0; round < 12; round++ {
+					vrt.Quiesce("peer: settle")
+					acted := false
+					for _, m := range outs() {
+						if m.Code != codes.GET {
+							continue
+						}
+						p, _ := m.Options.Path()
+						switch p {
+						case "/obs":
+							obsTok = append(message.Token{}, m.Token...)
+							resp := message.Message{Code: codes.Content, Token: m.Token, Options: obsOpt(10), Payload: []byte("reg")}
+							if t == "udp" && m.Type == message.Confirmable {
+								resp.Type, resp.MessageID = message.Acknowledgement, m.MessageID
+							}
+							inject(resp)
+							acted = true
+						case "/slow":
+							if !slowSeen {
+								slowSeen = true
+								// behind the request the peer first sends another notification, then the answer
+								inject(message.Message{Code: codes.Content, Token: obsTok, Options: obsOpt(12), Payload: []byte("n2")})
+								inject(message.Message{Code: codes.Content, Token: m.Token, Payload: []byte("slow-done")})
+								acted = true
+							}
+						}
+					}
+					if registered && len(seen) == 1 && !acted {
+						inject(message.Message{Code: codes.Content, Token: obsTok, Options: obsOpt(11), Payload: []byte("n1")})
+						acted = true
+					}
+					if !acted {
+						break
+					}
+				}
+			})
+			return func() (string, []mcx.Finding) {
+				if !s.Deadlock {
+					if nestedErr != "ok" {
+						fs = append(fs, mcx.Finding{Sig: "conn/nested-request-from-callback-failed", What: fmt.Sprintf("%s: the Get issued from the observation callback ended with %q; callback saw %v", name, nestedErr, seen)})
+					}
+					if fmt.Sprint(seen) != "[reg n1 n2]" {
+						fs = append(fs, mcx.Finding{Sig: "conn/notifications-not-delivered-once-in-order", What: fmt.Sprintf("%s: the callback saw %v, the peer sent [reg n1 n2]", name, seen)})
+					}
+				}
+				return fmt.Sprint(seen, nestedErr), fs
+			}
+		},
 	}
 }
